@@ -1294,6 +1294,43 @@ func generateScenarios(prop string, seed uint64, n int, adv bool) []*scenario {
 				sc.Features = append(sc.Features, "child-update-refused-422")
 			}
 			out = append(out, sc)
+		case prop == "C19c":
+			// what the controller does with the transport's verdicts: hook answers 429 (with and without
+			// Retry-After), 5xx, connection refused - through the plain path and through the parallel
+			// per-revision calls of a rolling update
+			var sc *scenario
+			if i%2 == 0 {
+				sc = g.rollout(i, s, true)
+				sc.Family = "faults"
+				if len(sc.Rounds) > 2 {
+					sc.Rounds = sc.Rounds[:2]
+				}
+				sc.Features = append(sc.Features, "rolling")
+			} else {
+				sc = g.basic("faults", i, s)
+				sc.Warmup = r.Bool()
+			}
+			h2 := sc.Hook
+			switch r.Intn(5) {
+			case 0, 1:
+				h2.Code, h2.RetryAfter = 429, fmt.Sprint(1+r.Intn(50))
+				sc.Features = append(sc.Features, "hook-429")
+			case 2:
+				h2.Code = 429 // no Retry-After
+				sc.Features = append(sc.Features, "hook-429-no-retry-after")
+			case 3:
+				h2.Code = []int{500, 502, 503}[r.Intn(3)]
+				sc.Features = append(sc.Features, "hook-5xx")
+			default:
+				h2.NetErr = true
+				sc.Features = append(sc.Features, "hook-conn-refused")
+			}
+			if sc.Warmup {
+				sc.Hook2 = &h2
+			} else {
+				sc.Hook = h2
+			}
+			out = append(out, sc)
 		case prop == "C12" && i%12 == 6:
 			// a rolling-update controller (the ControllerRevision path of the hook calls) whose hook says 429
 			sc := g.rollout(i, s, true)
